@@ -554,7 +554,15 @@ func TestDriver(t *testing.T) {
 		// plus two directed histories in which contracts sharing an expiration height EXPIRE after a
 		// reorg changed their list order (the state-level face of the C02 finding): once as the code
 		// is, once with WithExpiringContractOrder pinning the linear order (state must be linear)
-		directed = 2
+		// ... and a directed aborted reorg: a heavier fork applied part-way and rolled back, then the main
+		// chain extended by a block spending old outputs (supplements handed out after the rollback)
+		directed = 3
+	}
+	if mode == "subs" && os.Getenv("VERIF_ONLY_SEED") == "" {
+		// plus the directed expiry history on a manager with the linear expiration order pinned
+		// (WithExpiringContractOrder) while the STORE's own order differs: the update stream must
+		// carry the order the manager applied (subscribers' proofs verify at the tip)
+		directed = 1
 	}
 	for hi := 0; hi < nHist+directed; hi++ {
 		seed := base + int64(hi)
@@ -570,7 +578,7 @@ func TestDriver(t *testing.T) {
 			// branch although it is SHORTER (the weight gate compares work, not height)
 			spec = TreeSpec{Seed: seed, HeavyShort: [2]int{165, 150}}
 		}
-		if hi >= nHist && mode == "ledger" {
+		if hi >= nHist && (mode == "ledger" || mode == "subs") {
 			spec = TreeSpec{Seed: seed, Allow: 100, Require: 110, Final: 120, OpsPerBlk: 0,
 				Shape: []int{1, 2, 3, 3, 5, 6}, Scripts: map[int][]string{2: {"fc1w", "fc1w", "fc1w"}, 4: {"sp1"}}}
 		}
@@ -591,6 +599,22 @@ func TestDriver(t *testing.T) {
 		pinned := mode == "ledger" && hi%2 == 1
 		if hi >= nHist && mode == "ledger" {
 			pinned = hi == nHist+1
+		}
+		if hi == nHist+2 && mode == "ledger" {
+			spec = TreeSpec{Seed: seed, Allow: 100, Require: 110, Final: 120, OpsPerBlk: 2,
+				Shape: []int{1, 2, 3, 2, 5, 6, 4}, Bad: map[int]string{7: "tx-bad-signature"}, Scripts: scriptsFor([]int{1, 2, 3, 2, 5, 6, 4})}
+			for k := int64(0); k < 60; k++ {
+				spec.Seed = seed + 7000*k
+				if abortedReorgSensitive(spec.Build()) {
+					break
+				}
+			}
+			tr = spec.Build()
+			tj, nm = tr.Abstract()
+			s.trees[len(s.trees)-1] = tj
+		}
+		if hi >= nHist && mode == "subs" {
+			pinned = true
 		}
 		MgrOpts = nil
 		if pinned {
@@ -660,7 +684,7 @@ func TestDriver(t *testing.T) {
 		}
 		for i := 0; i < len(order); {
 			k := 1 + rng.Intn(4)
-			if hi >= nHist && mode == "ledger" {
+			if hi >= nHist && (mode == "ledger" || mode == "subs") {
 				k = 1 // directed: block by block, the main branch first
 			}
 			if i+k > len(order) {
